@@ -53,6 +53,42 @@ class Extractor:
                 self.helpers[n.name] = {'def': ast.unparse(ast.fix_missing_locations(m))}
         self.nid = id_base
         self.fvar = None
+        self.aliases = self.inline_aliases()
+
+    def inline_aliases(self):
+        """`econ = model.economics`-style locals (assigned once, pure attribute chain rooted at `model`) are substituted
+        into every expression, so the extracted tree does not depend on how the writer names its shortcuts"""
+        import collections
+        import copy
+        counts = collections.Counter()
+        for n in ast.walk(self.fn):
+            if isinstance(n, ast.Name) and isinstance(n.ctx, ast.Store):
+                counts[n.id] += 1
+            elif isinstance(n, ast.arg):
+                counts[n.arg] += 1
+
+        def chain(v):
+            while isinstance(v, ast.Attribute):
+                v = v.value
+            return isinstance(v, ast.Name) and v.id == 'model'
+
+        aliases = {}
+
+        class Sub(ast.NodeTransformer):
+            def visit_Name(self, node):
+                if isinstance(node.ctx, ast.Load) and node.id in aliases:
+                    return copy.deepcopy(aliases[node.id])
+                return node
+
+        for n in ast.walk(self.fn):
+            tgt, val = (n.targets[0], n.value) if isinstance(n, ast.Assign) and len(n.targets) == 1 else \
+                (n.target, n.value) if isinstance(n, ast.AnnAssign) else (None, None)
+            if isinstance(tgt, ast.Name) and val is not None and counts[tgt.id] == 1:
+                val = Sub().visit(copy.deepcopy(val))
+                if chain(val) and isinstance(val, ast.Attribute):
+                    aliases[tgt.id] = val
+        self.fn = ast.fix_missing_locations(Sub().visit(self.fn))
+        return aliases
 
     # ---- one f.write argument -> parts ----
     def parts(self, node):
@@ -144,6 +180,9 @@ class Extractor:
             if not isinstance(s.target, ast.Name) or s.orelse:
                 raise Unsupported(f'for loop at line {s.lineno}')
             return [{'t': 'for', 'var': s.target.id, 'iter': _src(s.iter), 'body': self.block(s.body)}]
+        if isinstance(s, (ast.Assign, ast.AnnAssign)) and isinstance(getattr(s, 'target', None) or s.targets[0], ast.Name) \
+                and (getattr(s, 'target', None) or s.targets[0]).id in self.aliases:
+            return []   # inlined shortcut
         if isinstance(s, ast.Assign) and len(s.targets) == 1 and isinstance(s.targets[0], ast.Name):
             v = s.value
             strish = lambda x: isinstance(x, ast.JoinedStr) or (isinstance(x, ast.Constant) and isinstance(x.value, str))
